@@ -48,6 +48,7 @@ def setup(ctx):
     ctx.require("monitor", "faults_fired", 93)
     ctx.require("monitor", "protocol_uploads", 24)
     ctx.require("monitor", "sequence_requests", 50)
+    ctx.require("monitor", "churn_requests", 14)
     ctx.require("monitor", "refused_by_middleware", 30)
 
 
@@ -494,6 +495,97 @@ def run_sequence(ctx, rng):
             shutil.rmtree(base, ignore_errors=True)
 
 
+def run_sequence_churn(ctx, rng):
+    """One handler object serves the SAME paths again and again while the upload tree is rearranged between the
+    requests (a directory replaced by a link that leads outside, an inside link re-pointed, everything put back):
+    every request is judged against the tree as it is when the request arrives - where the path led earlier does
+    not matter.  Besides the usual snapshot oracle, an accepted request must have changed the file its path
+    denotes NOW."""
+    from urllib.parse import unquote
+
+    from nauyaca.server.handler import FileUploadHandler
+
+    cfg = {"tokens": {"good"}, "max_size": LIMIT, "types": None, "delete": True}
+    paths = [("/sub/old.gmi", "nested-existing"), ("/sub/churn-new.gmi", "nested-new"), ("/link-in/old.gmi", "symlink-dir-in-existing"), ("/link-in/churn.txt", "symlink-dir-in-new"),
+             ("/existingdir/keep.txt", "nested-existing"), ("/sub/deeper/x.txt", "nested-new")]
+    for trial in range(ctx.pick(6, 200) // ctx.nshards + 1):
+        base = tempfile.mkdtemp(prefix="vf-c14c-")
+        try:
+            up = build_tree(rng, base)
+            os.makedirs(os.path.join(base, "stash"))
+            os.makedirs(os.path.join(up, "v2"))
+            with open(os.path.join(base, "outside", "old.gmi"), "wb") as f:
+                f.write(b"OUTSIDE old.gmi\n")
+            with open(os.path.join(base, "outside", "keep.txt"), "wb") as f:
+                f.write(b"OUTSIDE keep.txt\n")
+            with open(os.path.join(up, "v2", "old.gmi"), "wb") as f:
+                f.write(b"V2 old.gmi\n")
+            h = FileUploadHandler(up, max_size=cfg["max_size"], allowed_types=cfg["types"], auth_tokens=set(cfg["tokens"]), enable_delete=cfg["delete"])
+            history = []
+            serial = 0
+
+            def churn(comp):
+                nonlocal serial
+                serial += 1
+                full = os.path.join(up, comp)
+                stash = os.path.join(base, "stash", comp)
+                if os.path.islink(full):
+                    dest = os.readlink(full)
+                    os.unlink(full)
+                    if os.path.exists(stash):
+                        os.rename(stash, full)
+                        return f"{comp}: link removed, directory put back"
+                    if comp == "link-in" and dest == "sub":
+                        os.symlink("v2", full)
+                        return f"{comp}: re-pointed sub -> v2"
+                    if comp == "link-in":
+                        os.symlink("sub", full)
+                        return f"{comp}: re-pointed -> sub"
+                    os.makedirs(full)
+                    return f"{comp}: link removed, empty directory created"
+                if os.path.isdir(full):
+                    os.rename(full, stash)
+                    os.symlink(os.path.join(base, "outside") if serial % 2 else os.path.join("..", "outside"), full)
+                    return f"{comp}: directory replaced by a link to outside"
+                return None
+
+            for step in range(ctx.pick(14, 30)):
+                path, pclass = paths[(trial + step // 2) % len(paths)] if step % 5 else rng.choice(paths)
+                if step % 2 == 1:
+                    what = churn(path.split("/")[1])
+                    if what:
+                        history.append(what)
+                size = rng.choice([0, 7, 9]) if step % 3 else 9
+                content = bytes((13 * i + step + trial) & 0xFF for i in range(size))
+                req, line = make_request(path, size, "text/plain", "good", content)
+                denoted = os.path.realpath(os.path.join(up, unquote(path).lstrip("/")))
+                before = fstree.snapshot([base])
+                audit = AuditMonitor.get()
+                audit.start()
+                try:
+                    status = asyncio.run(h.handle_upload(req)).status
+                except Exception as e:  # noqa: BLE001
+                    status = 40
+                    ctx.count("outcome", f"handler-raised:{type(e).__name__}")
+                ev = audit.stop()
+                after = fstree.snapshot([base])
+                ctx.count("monitor", "sequence_requests")
+                ctx.count("monitor", "churn_requests")
+                check_outcome(ctx, base, up, before, after, ev, req, status, {k: (sorted(v) if isinstance(v, set) else v) for k, v in cfg.items()}, pclass, "valid", None, via="L0-seq-churn")
+                changed = [os.fsdecode(pp) for pp, change, old, new in fstree.diff(before, after) if {(old or ("none",))[0], (new or ("none",))[0]} <= {"file", "none"}]
+                inside_now = (denoted + os.sep).startswith(os.path.realpath(up) + os.sep)
+                wit = {"via": "L0-seq-churn", "request_line": line, "tree_changes_before_this_request": history[-4:], "path_denotes_now": denoted.replace(base, "<base>"), "status": status,
+                       "changed": [c.replace(base, "<base>") for c in changed]}
+                if 20 <= status <= 29 and len(changed) == 1 and os.path.realpath(changed[0]) != denoted:
+                    ctx.violation("wrong-target:tree-rearranged-between-requests", f"the request was accepted and changed {changed[0].replace(base, '<base>')}, but its path now denotes {denoted.replace(base, '<base>')}", wit)
+                elif inside_now and not (20 <= status <= 29) and not any(x in path for x in ("%",)) and size and os.path.isdir(os.path.dirname(denoted)) and not os.path.isdir(denoted):
+                    ctx.violation("authorised-upload-refused:tree-rearranged-between-requests", f"the path denotes {denoted.replace(base, '<base>')} inside the upload directory, the request is authorised, the answer was {status}", wit)
+                ctx.case(("seq-churn", pclass, history[-1].split(": ")[1] if history else "-", inside_now, 20 <= status <= 29, bool(size)), True,
+                         sample={"via": "sequence-churn", "line": line[:120], "step": step, "tree_changes": history[-3:], "status": status})
+        finally:
+            shutil.rmtree(base, ignore_errors=True)
+
+
 def run(ctx):
     rng = ctx.rng("c14")
     configs = [
@@ -542,5 +634,6 @@ def run(ctx):
         ctx.exhaustive = None
     run_protocol(ctx, rng)
     run_sequence(ctx, rng)
+    run_sequence_churn(ctx, rng)
     if ctx.shard == 2 or ctx.nshards == 1:
         run_protocol_refused(ctx, rng)
